@@ -21,6 +21,9 @@ struct Job {
     numpad: bool,
     fsugg: bool,
     with_prefix: bool,
+    /// options the result must not depend on: bit 0 English, 1 ANSI, 2 smart quotes (only the 111 published
+    /// keys are pressed for the non-zero settings)
+    other: u8,
 }
 
 fn expected<'a>(map: &'a HashMap<String, String>, code: u16, m: u8, numpad: bool) -> Option<&'a str> {
@@ -56,7 +59,9 @@ pub fn run(report: &Report, _thorough: bool) -> Evidence {
         for numpad in [false, true] {
             for fsugg in [false, true] {
                 for with_prefix in [false, true] {
-                    jobs.push(Job { layout: l.clone(), map: map.clone(), numpad, fsugg, with_prefix });
+                    for other in 0..8u8 {
+                        jobs.push(Job { layout: l.clone(), map: map.clone(), numpad, fsugg, with_prefix, other });
+                    }
                 }
             }
         }
@@ -81,7 +86,9 @@ pub fn run(report: &Report, _thorough: bool) -> Evidence {
                 let mut o = Opts::fixed(&job.layout, "", xdg);
                 o.numpad = job.numpad;
                 o.fsugg = job.fsugg;
-                o.smart = false;
+                o.english = job.other & 1 != 0;
+                o.ansi = job.other & 2 != 0;
+                o.smart = job.other & 4 != 0;
                 let mut c = Ctx::new(&o).expect("context for C04");
                 c.with_pre = false;
                 c
@@ -90,6 +97,9 @@ pub fn run(report: &Report, _thorough: bool) -> Evidence {
             let mut count = 0u64;
             for code in (bi * 4096) as u32..((bi + 1) * 4096) as u32 {
                 let code = code as u16;
+                if job.other != 0 && keys::by_code(code).is_none() {
+                    continue; // the full 65 536-code space is enumerated under the base setting of the other options
+                }
                 ctx.set_fixed(prefix, "", 0);
                 let exp_val = expected(&job.map, code, m, job.numpad);
                 let exp_text = format!("{}{}", prefix, exp_val.unwrap_or(""));
@@ -153,7 +163,7 @@ pub fn run(report: &Report, _thorough: bool) -> Evidence {
                             }
                         }
                         if exp_val.is_some() {
-                            nontrivial.insert((ji / 4, code, m & 2 != 0));
+                            nontrivial.insert((ji / 32, code, m & 2 != 0));
                             samples.offer(|| json!({"layout": job.layout, "numpad": job.numpad, "event": ev.short(), "expected": exp_text, "got": r.to_json()}));
                         }
                     }
